@@ -72,7 +72,8 @@ where
         if idx >= self.len() {
             ret = None;
         } else {
-            let mut limit = idx + len;
+            // `len` comes from the caller: it may be larger than anything stored
+            let mut limit = idx.saturating_add(len);
 
             ret = Some(limit);
 
